@@ -6,6 +6,7 @@ M2: create_linear_distribution(n, p/q) compared with the exported rationals
     (the function returns floats: relative tolerance 1e-9) and the same laws
     re-checked on the floats.
 """
+import os
 from fractions import Fraction
 
 from . import common, engine, impl, tlc
@@ -52,7 +53,67 @@ def replay_skew(tag, rec):
                 if n >= 2:
                     cl('last_is_s_times_first', abs(d[-1] - (p / q) * d[0]) <= TOL, 'first %r last %r s %r' % (d[0], d[-1], p / q))
                 cl('arithmetic', all(abs((d[i + 1] - d[i]) - (d[i] - d[i - 1])) <= TOL for i in range(1, n - 1)), str(d))
+    # the weights USED FOR DRAWING (MC_Skew: Draw, UsedAreThisRuns): a history of two generator runs in one process with the
+    # same number of rankable agents - first another skew, then this one; whatever reaches the drawing routine in the
+    # second run must be this triple's weights (as a multiset: the pairing of weights and agents is the generator's business)
+    if n <= 12 and p <= 12 and q <= 12:
+        mp = ('ha', 'hr', 'sm', 'spa')[(n + p + 2 * q) % 4]
+        other = (p + q) / q if p != q else 3.0
+        runs = used_weights(n, [other, p / q], mp)
+        r2 = runs[1]
+        if isinstance(r2, str) or isinstance(runs[0], str):
+            cl('use_run_no_exception', False, '%s run: %s' % (mp, r2 if isinstance(r2, str) else runs[0]))
+        elif r2:
+            # (no draw observed at numpy.random.choice: nothing to compare - a generator that draws otherwise is not judged here)
+            want = sorted(float(b) for b in exp)
+            bad = [w for w in r2 if len(w) != n or any(abs(a - b) > TOL * max(1.0, abs(b)) for a, b in zip(sorted(w), want))]
+            cl('weights_used_for_drawing', not bad,
+               '-mp %s, %d rankable agents, run with -skew %r after a run with -skew %r in the same process: %d of %d draws used weights %s, spec %s'
+               % (mp, n, p / q, other, len(bad), len(r2), (bad or [None])[0], [str(x) for x in exp]))
     return out, {'hash': key, 'n': n, 'sample': {'n': n, 's': '%d/%d' % (p, q), 'spec_weights': ['%d/%d' % tuple(x) for x in rec['dist']][:4]}}
+
+
+def used_weights(n, skews, mp):
+    """Runs the real Generator once per skew IN THIS PROCESS, in order, with n rankable agents, and returns per
+    run the weight vectors that reached numpy.random.choice (None when a run failed).  No repository hook:
+    the drawing routine is a numpy entry point."""
+    import shutil
+    import tempfile
+    import numpy as np
+    impl.ensure_repo()
+    from matchingproblems.generator.generator import Generator
+    seen = []
+    orig = np.random.choice
+
+    def spy(*a, **kw):
+        pv = kw.get('p', a[3] if len(a) > 3 else None)
+        repl = kw.get('replace', a[2] if len(a) > 2 else True)
+        # a preference list is drawn WITHOUT replacement (the tie indicators are drawn with replacement: not weights of agents)
+        if pv is not None and not repl:
+            seen.append([float(x) for x in pv])
+        return orig(*a, **kw)
+    out = []
+    root = tempfile.mkdtemp(prefix='skewuse-', dir=common.scratch())
+    np.random.choice = spy
+    try:
+        for i, sk in enumerate(skews):
+            del seen[:]
+            d = os.path.join(root, 'r%d' % i)
+            pm = min(2, n)
+            tail = {'ha': '-n1 3 -n2 %d -pmin 1 -pmax %d -uq %d' % (n, pm, n),
+                    'hr': '-n1 3 -n2 %d -pmin 1 -pmax %d -uq %d -twopl' % (n, pm, n),
+                    'sm': '-n1 %d -pmin 1 -pmax %d -twopl' % (n, pm),
+                    'spa': '-n1 3 -n2 %d -n3 1 -pmin 1 -pmax %d -uq %d -luq 3' % (n, pm, n)}[mp]
+            try:
+                with impl.quiet():
+                    Generator(('-numinst 2 -o %s -mp %s %s -skew %r' % (d, mp, tail, sk)).split())
+                out.append([list(x) for x in seen])
+            except BaseException as e:  # noqa
+                out.append('%s: %s' % (type(e).__name__, e))
+    finally:
+        np.random.choice = orig
+        shutil.rmtree(root, ignore_errors=True)
+    return out
 
 
 def growth_sampling(rep, seed):
@@ -95,7 +156,7 @@ def main(tier, seed):
         rep.sample(info['sample'])
     try:
         res = engine.tlc_replay(rep, pool, 'MC_Skew', replay_skew, consts=dict(Triples=tlc.tla_set(triples)),
-                                invariants=['Positive', 'SumsToOne', 'CommonDen', 'Arithmetic', 'LastIsSTimesFirst', 'LastFirstRatio', 'SingleAgent', 'Export'],
+                                invariants=['Positive', 'SumsToOne', 'CommonDen', 'Arithmetic', 'LastIsSTimesFirst', 'LastFirstRatio', 'SingleAgent', 'UsedAreThisRuns', 'Export'],
                                 on_result=on_result, timeout=1800)
     finally:
         pool.close()
